@@ -45,3 +45,9 @@ package threading
 //@   ensures  calls(task) == old(calls(task)) + 1
 //@   ensures  chanLen(rp.limitChan) == old(chanLen(rp.limitChan)) - 1 && wg(rp.waitGroup) == old(wg(rp.waitGroup)) - 1
 //@   ensures_panic false
+
+// RunSafe(fn): runs fn once and recovers its panic (trusted by inspection: defer rescue.Recover(); fn()).
+//@ func RunSafe
+//@   trusted
+//@   flag runs_funcargs recovers
+//@   modifies nothing
